@@ -20,7 +20,7 @@ RP = lambda case: dict(driver='replay.cpp', case=case, vars=['c', 'n', 'k'])
 UNIT = dict(
     properties=['C26'],
     stage=[
-        dict(kind='verbatim', path='cds/details/bit_reverse_counter.h', must_contain=[r'counter_type\s+m_nCounter;', r'counter_type\s+m_nReversed;', r'int\s+m_nHighBit;']),
+        dict(kind='verbatim', path='cds/details/bit_reverse_counter.h', must_contain=[r'counter_type\s+m_nCounter\b', r'counter_type\s+m_nReversed\b', r'int\s+m_nHighBit\b']),
         dict(kind='fragment', path='cds/algo/bitop.h', name='BitOps4', anchor=r'template <> struct BitOps<4>', body_only=True),
         dict(kind='fragment', path='cds/algo/bitop.h', name='BitOps8', anchor=r'template <> struct BitOps<8>', body_only=True),
         dict(kind='verbatim', path='cds/details/bitop_generic.h'),
